@@ -372,7 +372,11 @@ def _edit_in_place(g, what, c):
         return False
     if what == "information":
         for e in g._edges:
-            np.asarray(e.information)[0, 0] += d
+            arr = np.asarray(e.information)
+            if arr.dtype.kind in "iu":
+                arr[0, 0] = arr[0, 0] // 2 + 1  # an in-place edit that stays inside the integer dtype's range
+            else:
+                arr[0, 0] += d
             return True
     return False
 
